@@ -10,8 +10,9 @@
   * clause 11 ("up to the order of lines in files that represent sets"): the LoPar writer's grammar, start and tag-count
     files depend on grammar and lexicon only as finite maps; the whole grammar command on a permuted treebank
     (`writeLopar_command_perm`); the lexicon file is NOT set-like (counterexample);
-  * clause 3: the discobracket reader is sentence local (`brLoop_disco_append`, `readDisco_append`), with the
-    counterexamples that show where a text may not be cut.
+  * clause 3: the discobracket reader is sentence local (`brLoop_disco_append`, `readDisco_append`,
+    `readDisco_append_text`: a text may be cut behind every line break), with the examples that show that the inputs
+    which were misread before the repair of the reader (D21: blank before the line break, blank lines) are read correctly.
 -/
 import TT.Spec.More12f
 import TT.Lemmas.More12f
@@ -719,12 +720,14 @@ def dview (r : Except Err (List (Nat × Tree))) : Option (List (Nat × List Nat 
 /-! ### C. token level -/
 
 /-- TOKEN-LEVEL MAIN THEOREM.  If the tokens `a` are read successfully from a between-sentences state and the last
-    token of `a` is a "\n" token (`EndsNL a`: the last sentence line is terminated inside `a`), then reading `a ++ b`
-    is reading `b` from the fresh state with the sentence counter advanced and the trees of `a` already delivered.
+    token of `a` is whitespace with a line break (`EndsBreak a`: the last sentence line is terminated inside `a`), then
+    reading `a ++ b` is reading `b` from the fresh state with the sentence counter advanced and the trees of `a` already
+    delivered.  Before the repair of the reader (D21) the hypothesis had to be `EndsNL a` (the last token is exactly
+    "\n"); now any whitespace token that contains a line break ends the sentence line (" \n", "\n\n", "\t\n  ", ...).
     The statement is the one given, except that the hypothesis `o.disco = true` is dropped: the proof does not use it
-    (with `o.disco = false` there is no post-pass and `EndsNL` is not needed either, see `C18More.brLoop_append`). -/
+    (with `o.disco = false` there is no post-pass and `EndsBreak` is not needed either, see `C18More.brLoop_append`). -/
 theorem brLoop_disco_append (o : InOpts) (a b : List (Str × LexClass)) (st : BrState) (ra : List (Nat × Tree)) (fa fb : Nat)
-    (ha : brLoop o fa st a = .ok ra) (hst : st.state = 0 ∧ st.level = 0 ∧ st.queue = [] ∧ st.termCnt = 1) (hnl : EndsNL a)
+    (ha : brLoop o fa st a = .ok ra) (hst : st.state = 0 ∧ st.level = 0 ∧ st.queue = [] ∧ st.termCnt = 1) (hnl : EndsBreak a)
     (hfa : a.length < fa) (hfb : (a ++ b).length < fb) :
     brLoop o fb st (a ++ b) = brLoop o fb ⟨0, 0, [], 1, st.cnt + (ra.length - st.out.length), ra.reverse⟩ b := by
   obtain ⟨s, hr, hl0, hout, hb⟩ := loop_reach o fa st a ra ha hnl hfa
@@ -745,7 +748,7 @@ theorem brLoop_disco_append (o : InOpts) (a b : List (Str × LexClass)) (st : Br
     errors of `b` are the errors of `a ++ b` -/
 theorem brLoop_disco_append_results (o : InOpts) (a b : List (Str × LexClass)) (st : BrState) (ra : List (Nat × Tree))
     (fa fb fb' : Nat)
-    (ha : brLoop o fa st a = .ok ra) (hst : st.state = 0 ∧ st.level = 0 ∧ st.queue = [] ∧ st.termCnt = 1) (hnl : EndsNL a)
+    (ha : brLoop o fa st a = .ok ra) (hst : st.state = 0 ∧ st.level = 0 ∧ st.queue = [] ∧ st.termCnt = 1) (hnl : EndsBreak a)
     (hfa : a.length < fa) (hfb : (a ++ b).length < fb) (hfb' : b.length < fb') :
     brLoop o fb st (a ++ b) =
       match brLoop o fb' { cnt := st.cnt + (ra.length - st.out.length) } b with
@@ -761,48 +764,68 @@ theorem brLoop_disco_append_results (o : InOpts) (a b : List (Str × LexClass)) 
 /-- both parts succeed: the results concatenate -/
 theorem brLoop_disco_append_ok (o : InOpts) (a b : List (Str × LexClass)) (st : BrState) (ra rb : List (Nat × Tree))
     (fa fb fb' : Nat)
-    (ha : brLoop o fa st a = .ok ra) (hst : st.state = 0 ∧ st.level = 0 ∧ st.queue = [] ∧ st.termCnt = 1) (hnl : EndsNL a)
+    (ha : brLoop o fa st a = .ok ra) (hst : st.state = 0 ∧ st.level = 0 ∧ st.queue = [] ∧ st.termCnt = 1) (hnl : EndsBreak a)
     (hfa : a.length < fa) (hfb : (a ++ b).length < fb) (hfb' : b.length < fb')
     (hrb : brLoop o fb' { cnt := st.cnt + (ra.length - st.out.length) } b = .ok rb) :
     brLoop o fb st (a ++ b) = .ok (ra ++ rb) := by
   rw [brLoop_disco_append_results o a b st ra fa fb fb' ha hst hnl hfa hfb hfb', hrb]
 
+/-- the former hypothesis (`EndsNL`: the last token is exactly "\n") is a special case on lexer output, where a "\n"
+    token is always a whitespace token -/
+theorem brLoop_disco_append_endsNL (o : InOpts) (a b : List (Str × LexClass)) (st : BrState) (ra : List (Nat × Tree)) (fa fb : Nat)
+    (ha : brLoop o fa st a = .ok ra) (hst : st.state = 0 ∧ st.level = 0 ∧ st.queue = [] ∧ st.termCnt = 1) (hnl : EndsNL a)
+    (hcl : ∀ tc ∈ a, tc.1 = ['\n'] → tc.2 = .ws)
+    (hfa : a.length < fa) (hfb : (a ++ b).length < fb) :
+    brLoop o fb st (a ++ b) = brLoop o fb ⟨0, 0, [], 1, st.cnt + (ra.length - st.out.length), ra.reverse⟩ b :=
+  brLoop_disco_append o a b st ra fa fb ha hst (endsBreak_of_endsNL a hnl hcl) hfa hfb
+
 /-- the tokens of the two example lines: `(S (A 1) (B 2))<TAB>x y<NL>` and `(T (C 1))<TAB>z<NL>`, each with its
     "\n" token (the lexer emits it because something non-white follows, here a junk word `q`) -/
 def dExA : List (Str × LexClass) := bracketLex "(S (A 1) (B 2))\tx y\nq ".toList |>.dropLast
 def dExB : List (Str × LexClass) := bracketLex "(T (C 1))\tz\nq ".toList |>.dropLast
+/-- the first line with two blanks between the words, a TAB and a blank before the line break and a blank line behind it -/
+def dExA' : List (Str × LexClass) := bracketLex "(S (A 1) (B 2))\t x  y\t \n\nq ".toList |>.dropLast
 
 /-- F: the hypotheses of the token-level theorem are met by the first example line, and the concatenation reads as the
     concatenation with the ids continued (leaf numbers and words are those of each line's own sentence) -/
-example : EndsNL dExA ∧ dExA.length < 21 ∧ (dExA ++ dExB).length < 40 ∧ dExB.length < 20 ∧
+example : EndsBreak dExA ∧ dExA.length < 21 ∧ (dExA ++ dExB).length < 40 ∧ dExB.length < 20 ∧
     dview (brLoop { disco := true } 21 {} dExA) = some [(1, [1, 2], ["x".toList, "y".toList])] ∧
     dview (brLoop { disco := true } 20 { cnt := 2 } dExB) = some [(2, [1], ["z".toList])] ∧
     dview (brLoop { disco := true } 40 {} (dExA ++ dExB)) =
       some [(1, [1, 2], ["x".toList, "y".toList]), (2, [1], ["z".toList])] :=
-  ⟨.inr ⟨dExA.dropLast, .ws, by decide +kernel⟩, by decide +kernel, by decide +kernel, by decide +kernel,
+  ⟨.inr ⟨dExA.dropLast, ['\n'], by decide +kernel, by decide⟩, by decide +kernel, by decide +kernel, by decide +kernel,
     by decide +kernel, by decide +kernel, by decide +kernel⟩
+
+/-- F: the same with the untidy first line: its last token is "\t \n\n" -/
+example : EndsBreak dExA' ∧ dExA'.length < 21 ∧ (dExA' ++ dExB).length < 40 ∧ dExB.length < 20 ∧
+    dview (brLoop { disco := true } 21 {} dExA') = some [(1, [1, 2], ["x".toList, "y".toList])] ∧
+    dview (brLoop { disco := true } 40 {} (dExA' ++ dExB)) =
+      some [(1, [1, 2], ["x".toList, "y".toList]), (2, [1], ["z".toList])] :=
+  ⟨.inr ⟨dExA'.dropLast, "\t \n\n".toList, by decide +kernel, by decide⟩, by decide +kernel, by decide +kernel, by decide +kernel,
+    by decide +kernel, by decide +kernel⟩
 
 /-! ### D. the last sentence line has to be terminated -/
 
 def exDa : List (Str × LexClass) := bracketLex "(S 1)\tx ".toList
 def exDb : List (Str × LexClass) := (bracketLex "(T 1)\tz\n(U 1)\tw\nq ".toList).dropLast
 
-/-- `EndsNL` cannot be dropped.  `a` = `(S 1)<TAB>x` is read successfully on its own (the sentence is ended by the end
+/-- `EndsBreak` cannot be dropped.  `a` = `(S 1)<TAB>x` is read successfully on its own (the sentence is ended by the end
     of the stream), `b` = `(T 1)<TAB>z<NL>(U 1)<TAB>w<NL>` gives two trees on its own; in `a ++ b` the whole first line
-    of `b` is swallowed into the sentence of `a`: two trees instead of three. -/
+    of `b` is swallowed into the sentence of `a`: two trees instead of three.  (This is a cut in the middle of a line, not
+    a defect: the text of `a` has no line break.) -/
 example :
-    ¬ EndsNL exDa ∧
+    ¬ EndsBreak exDa ∧
     dview (brLoop { disco := true } 30 {} exDa) = some [(1, [1], ["x".toList])] ∧
     dview (brLoop { disco := true } 30 { cnt := 2 } exDb) = some [(2, [1], ["z".toList]), (3, [1], ["w".toList])] ∧
     dview (brLoop { disco := true } 30 {} (exDa ++ exDb)) = some [(1, [1], ["x".toList]), (2, [1], ["w".toList])] := by
   refine ⟨?_, by decide +kernel, by decide +kernel, by decide +kernel⟩
-  rintro (h | ⟨pre, c, h⟩)
+  rintro (h | ⟨pre, t, h, _⟩)
   · exact absurd h (by decide +kernel)
-  · have h2 := congrArg (fun l => l.getLast?.map (·.1)) h
+  · have h2 := congrArg (fun l => l.getLast?.map (·.2)) h
     simp only [List.getLast?_append, List.getLast?_singleton, Option.some_or, Option.map_some] at h2
     exact absurd h2 (by decide +kernel)
 
-/-- the same on texts -/
+/-- the same on texts (no line break between the two parts) -/
 example :
     dview (readBrackets { disco := true } "(S 1)\tx ".toList) = some [(1, [1], ["x".toList])] ∧
     dview (readBrackets { disco := true, firstId := some 2 } "(T 1)\tz\n(U 1)\tw\n".toList) =
@@ -812,40 +835,56 @@ example :
 
 /-! ### E. text level -/
 
-
-theorem lineToks_endsNL (a0 : Str) : EndsNL (lineToks a0) := endsNL_snoc _ _
+theorem lineToks_endsBreak (a0 : Str) : EndsBreak (lineToks a0) := endsBreak_snoc _ _ (by decide)
 
 /-- the lexer lemma: when `a0` does not end with whitespace and the next line starts with a non-white character, the
     token stream is cut exactly behind the "\n" token.  (If `a0` ends with whitespace the newline is glued to that
-    run — `lex_line_general` — and the token is not a "\n" token.) -/
+    run — `lex_line_general` — and the token is not a "\n" token; since the repair of the reader that token ends the
+    sentence line as well.) -/
 theorem lex_line (a0 : Str) (c : Char) (b' : Str) (hc : pyIsSpace c = false) (hws : NoTrailWs a0) :
     bracketLex (a0 ++ '\n' :: c :: b') = lineToks a0 ++ bracketLex (c :: b') := by
   rw [lex_line_general a0 c b' hc, lexBuf_noTrailWs a0 hws]
   rfl
 
-/-- TEXT-LEVEL COROLLARY.  `a0` is the first part of the text without its final newline and must not end with
-    whitespace; `c :: b'` is the second part, starting with a non-white character.  If the tokens of the first part
-    (`lineToks a0`, which include the terminating "\n" token) are read successfully, giving `ra`, then reading the
-    whole text gives `ra` followed by the trees of the second part read on its own with the sentence ids continued;
-    errors of the second part are the errors of the whole.  Holds for every `o` (the brief asked for `o.disco = true`). -/
+/-- the core of the text-level theorems: a text whose tokens are those of `a0 ++ "\n"`, one whitespace token with a line
+    break, and the tokens of `b` -/
+theorem readDisco_cut (o : InOpts) (a0 text b : Str) (T : Str) (ra : List (Nat × Tree)) (hT : T.contains '\n' = true)
+    (hlex : bracketLex text = (bracketLex (a0 ++ ['\n']) ++ [(T, LexClass.ws)]) ++ bracketLex b)
+    (ha : brLoop o ((lineToks a0).length + 1) { cnt := o.firstId.getD 1 } (lineToks a0) = .ok ra) :
+    readBrackets o text =
+      match readBrackets { o with firstId := some (o.firstId.getD 1 + ra.length) } b with
+      | .error e => .error e
+      | .ok rb => .ok (ra ++ rb) := by
+  unfold readBrackets
+  rw [hlex]
+  have ha' : brLoop o ((lineToks a0).length + 1) { cnt := o.firstId.getD 1 } (bracketLex (a0 ++ ['\n']) ++ [(T, LexClass.ws)]) = .ok ra := by
+    rw [← ha]
+    exact brLoop_last_break o _ _ _ T ['\n'] hT (by decide)
+  rw [brLoop_disco_append_results o (bracketLex (a0 ++ ['\n']) ++ [(T, LexClass.ws)]) (bracketLex b) { cnt := o.firstId.getD 1 } ra
+    ((lineToks a0).length + 1) _ ((bracketLex b).length + 1) ha' ⟨rfl, rfl, rfl, rfl⟩ (endsBreak_snoc _ _ hT)
+    (by simp [lineToks]) (by omega) (by omega)]
+  rw [brLoop_firstId o (some (o.firstId.getD 1 + ra.length))]
+  rfl
+
+/-- TEXT-LEVEL COROLLARY.  `a0` is the first part of the text without its final newline — it MAY end with blanks or
+    TABs (before the repair of the reader, D21, the hypothesis `NoTrailWs a0` was needed) —; `c :: b'` is the second part,
+    starting with a non-white character.  If the tokens of the first part (`lineToks a0`, which include the terminating
+    "\n" token) are read successfully, giving `ra`, then reading the whole text gives `ra` followed by the trees of the
+    second part read on its own with the sentence ids continued; errors of the second part are the errors of the whole.
+    Holds for every `o` (the brief asked for `o.disco = true`). -/
 theorem readDisco_append (o : InOpts) (a0 : Str) (c : Char) (b' : Str) (ra : List (Nat × Tree))
-    (hc : pyIsSpace c = false) (hws : NoTrailWs a0)
+    (hc : pyIsSpace c = false)
     (ha : brLoop o ((lineToks a0).length + 1) { cnt := o.firstId.getD 1 } (lineToks a0) = .ok ra) :
     readBrackets o (a0 ++ '\n' :: c :: b') =
       match readBrackets { o with firstId := some (o.firstId.getD 1 + ra.length) } (c :: b') with
       | .error e => .error e
-      | .ok rb => .ok (ra ++ rb) := by
-  unfold readBrackets
-  rw [lex_line a0 c b' hc hws]
-  rw [brLoop_disco_append_results o (lineToks a0) (bracketLex (c :: b')) { cnt := o.firstId.getD 1 } ra
-    ((lineToks a0).length + 1) _ ((bracketLex (c :: b')).length + 1) ha ⟨rfl, rfl, rfl, rfl⟩ (lineToks_endsNL a0)
-    (by omega) (by omega) (by omega)]
-  rw [brLoop_firstId o (some (o.firstId.getD 1 + ra.length))]
-  rfl
+      | .ok rb => .ok (ra ++ rb) :=
+  readDisco_cut o a0 _ (c :: b') ((lexBuf a0 [] []).2.reverse ++ ['\n']) ra (by simp)
+    (lex_line_general a0 c b' hc) ha
 
 /-- the same with the second part given as a text `b` whose first character exists and is not whitespace -/
 theorem readDisco_append' (o : InOpts) (a0 b : Str) (ra : List (Nat × Tree))
-    (hb : b.head?.map pyIsSpace = some false) (hws : NoTrailWs a0)
+    (hb : b.head?.map pyIsSpace = some false)
     (ha : brLoop o ((lineToks a0).length + 1) { cnt := o.firstId.getD 1 } (lineToks a0) = .ok ra) :
     readBrackets o (a0 ++ '\n' :: b) =
       match readBrackets { o with firstId := some (o.firstId.getD 1 + ra.length) } b with
@@ -853,15 +892,72 @@ theorem readDisco_append' (o : InOpts) (a0 b : Str) (ra : List (Nat × Tree))
       | .ok rb => .ok (ra ++ rb) := by
   cases b with
   | nil => simp at hb
-  | cons c b' => exact readDisco_append o a0 c b' ra (by simpa using hb) hws ha
+  | cons c b' => exact readDisco_append o a0 c b' ra (by simpa using hb) ha
 
 /-- both parts succeed: the results concatenate -/
 theorem readDisco_append_ok (o : InOpts) (a0 b : Str) (ra rb : List (Nat × Tree))
-    (hb : b.head?.map pyIsSpace = some false) (hws : NoTrailWs a0)
+    (hb : b.head?.map pyIsSpace = some false)
     (ha : brLoop o ((lineToks a0).length + 1) { cnt := o.firstId.getD 1 } (lineToks a0) = .ok ra)
     (hrb : readBrackets { o with firstId := some (o.firstId.getD 1 + ra.length) } b = .ok rb) :
     readBrackets o (a0 ++ '\n' :: b) = .ok (ra ++ rb) := by
-  rw [readDisco_append' o a0 b ra hb hws ha, hrb]
+  rw [readDisco_append' o a0 b ra hb ha, hrb]
+
+/-- reading the tokens of a complete line (`lineToks a0`) is implied by reading the TEXT `a0 ++ "\n"` on its own: since
+    the repair the token that ends the line gets no position, so it makes no difference whether the line is ended by that
+    token or by the end of the stream -/
+theorem lineToks_of_text (o : InOpts) (a0 : Str) (ra : List (Nat × Tree)) (ha : readBrackets o (a0 ++ ['\n']) = .ok ra) :
+    brLoop o ((lineToks a0).length + 1) { cnt := o.firstId.getD 1 } (lineToks a0) = .ok ra := by
+  unfold readBrackets at ha
+  have := brLoop_snoc_ws o ['\n'] _ _ _ ra ha (Nat.lt_succ_self _)
+  simpa [lineToks] using this
+
+/-- TEXT-LEVEL MAIN THEOREM, on texts only and without any side condition on the second part: if the text `a0 ++ "\n"`
+    is read successfully, giving `ra`, then for EVERY text `b` reading `a0 ++ "\n" ++ b` gives `ra` followed by the trees
+    of `b` read on its own with the sentence ids continued; errors of `b` are the errors of the whole.  `a0` may end with
+    blanks, `b` may start with blank lines or be empty.  (False before the repair: see the examples below.) -/
+theorem readDisco_append_text (o : InOpts) (a0 b : Str) (ra : List (Nat × Tree))
+    (ha : readBrackets o (a0 ++ ['\n']) = .ok ra) :
+    readBrackets o (a0 ++ '\n' :: b) =
+      match readBrackets { o with firstId := some (o.firstId.getD 1 + ra.length) } b with
+      | .error e => .error e
+      | .ok rb => .ok (ra ++ rb) := by
+  obtain ⟨w, r, rfl, hw, hr⟩ := split_lead_ws b
+  rcases hr with rfl | ⟨c, b', rfl, hc⟩
+  · -- nothing but whitespace follows
+    have e1 : readBrackets o (a0 ++ '\n' :: (w ++ [])) = .ok ra := by
+      unfold readBrackets at ha ⊢
+      rw [List.append_nil, lex_line_end a0 w hw]
+      exact ha
+    have e2 : bracketLex (w ++ []) = [] := by
+      unfold bracketLex; rw [List.append_nil]; exact (lex_spaces w hw []).1
+    rw [e1]
+    unfold readBrackets
+    rw [e2]
+    simp [brLoop]
+  · have hcut := readDisco_cut o a0 (a0 ++ '\n' :: (w ++ c :: b')) (c :: b') ((lexBuf a0 [] []).2.reverse ++ '\n' :: w) ra
+      (by simp) (lex_line_ws a0 w c b' hw hc) (lineToks_of_text o a0 ra ha)
+    rw [hcut]
+    -- the leading whitespace of the second part is skipped
+    have e : readBrackets { o with firstId := some (o.firstId.getD 1 + ra.length) } (w ++ c :: b') =
+        readBrackets { o with firstId := some (o.firstId.getD 1 + ra.length) } (c :: b') := by
+      unfold readBrackets
+      rw [lex_lead_ws w c b' hw hc]
+      by_cases hne : w = []
+      · simp [hne]
+      · simp only [hne, if_false, List.singleton_append, List.length_cons]
+        rw [brLoop_cons]
+        have hd : ∀ (st : BrState) rest, st.state = 0 → dStep { o with firstId := some (o.firstId.getD 1 + ra.length) } st (w, .ws) rest = .ok (st, rest) := by
+          intro st rest h0
+          simp [dStep, brStep, h0]
+        rw [hd _ _ rfl]
+    rw [e]
+
+/-- both parts succeed: the results concatenate -/
+theorem readDisco_append_text_ok (o : InOpts) (a0 b : Str) (ra rb : List (Nat × Tree))
+    (ha : readBrackets o (a0 ++ ['\n']) = .ok ra)
+    (hrb : readBrackets { o with firstId := some (o.firstId.getD 1 + ra.length) } b = .ok rb) :
+    readBrackets o (a0 ++ '\n' :: b) = .ok (ra ++ rb) := by
+  rw [readDisco_append_text o a0 b ra ha, hrb]
 
 /-- a text whose last character is not whitespace -/
 theorem noTrailWs_snoc (p : Str) (c : Char) (hc : pyIsSpace c = false) : NoTrailWs (p ++ [c]) := by
@@ -872,41 +968,69 @@ theorem noTrailWs_snoc (p : Str) (c : Char) (hc : pyIsSpace c = false) : NoTrail
 
 /-- F: the example of the brief, `(S (A 0) (B 1))<TAB>x y<NL>` followed by `(T (C 0))<TAB>z<NL>`: the hypotheses are
     met, ids continue.  (Words are 1-based indices into the sentence in this reader, so index 0 has no word: "0".) -/
-example : NoTrailWs "(S (A 0) (B 1))\tx y".toList ∧ ("(T (C 0))\tz\n".toList).head?.map pyIsSpace = some false ∧
+example : ("(T (C 0))\tz\n".toList).head?.map pyIsSpace = some false ∧
     dview (brLoop { disco := true } ((lineToks "(S (A 0) (B 1))\tx y".toList).length + 1) {}
       (lineToks "(S (A 0) (B 1))\tx y".toList)) = some [(1, [0, 1], ["0".toList, "x".toList])] ∧
     dview (readBrackets { disco := true, firstId := some 2 } "(T (C 0))\tz\n".toList) = some [(2, [0], ["0".toList])] ∧
     dview (readBrackets { disco := true } ("(S (A 0) (B 1))\tx y".toList ++ '\n' :: "(T (C 0))\tz\n".toList)) =
       some [(1, [0, 1], ["0".toList, "x".toList]), (2, [0], ["0".toList])] :=
-  ⟨noTrailWs_snoc "(S (A 0) (B 1))\tx ".toList 'y' (by decide), by decide +kernel, by decide +kernel,
-    by decide +kernel, by decide +kernel⟩
+  ⟨by decide +kernel, by decide +kernel, by decide +kernel, by decide +kernel⟩
 
 /-- F: the same with 1-based indices, so that every leaf gets its word -/
-example : NoTrailWs "(S (A 1) (B 2))\tx y".toList ∧ ("(T (C 1))\tz\n".toList).head?.map pyIsSpace = some false ∧
+example : ("(T (C 1))\tz\n".toList).head?.map pyIsSpace = some false ∧
     dview (brLoop { disco := true } ((lineToks "(S (A 1) (B 2))\tx y".toList).length + 1) {}
       (lineToks "(S (A 1) (B 2))\tx y".toList)) = some [(1, [1, 2], ["x".toList, "y".toList])] ∧
     dview (readBrackets { disco := true, firstId := some 2 } "(T (C 1))\tz\n".toList) = some [(2, [1], ["z".toList])] ∧
     dview (readBrackets { disco := true } ("(S (A 1) (B 2))\tx y".toList ++ '\n' :: "(T (C 1))\tz\n".toList)) =
       some [(1, [1, 2], ["x".toList, "y".toList]), (2, [1], ["z".toList])] :=
-  ⟨noTrailWs_snoc "(S (A 1) (B 2))\tx ".toList 'y' (by decide), by decide +kernel, by decide +kernel,
-    by decide +kernel, by decide +kernel⟩
+  ⟨by decide +kernel, by decide +kernel, by decide +kernel, by decide +kernel⟩
 
-/-- the hypothesis has to be about `lineToks a0` (with the "\n" token), not about the text `a0 ++ "\n"` read on its
-    own: at the end of the text the sentence is ended by the end of the stream, inside a longer text by the "\n"
-    token, and that token gets a position of its own — a leaf pointing one past the last word reads "0" in the
-    first case and "\n" in the second. -/
+/-- F: an instance of `readDisco_append_text` with a first part that ends in a blank and a TAB, two blanks between the
+    words, and a second part that starts with a blank line -/
+example :
+    dview (readBrackets { disco := true } ("(S (A 1) (B 2))\tx  y \t".toList ++ ['\n'])) =
+      some [(1, [1, 2], ["x".toList, "y".toList])] ∧
+    dview (readBrackets { disco := true, firstId := some 2 } " \n(T (C 1))\tz\n".toList) = some [(2, [1], ["z".toList])] ∧
+    dview (readBrackets { disco := true } ("(S (A 1) (B 2))\tx  y \t".toList ++ '\n' :: " \n(T (C 1))\tz\n".toList)) =
+      some [(1, [1, 2], ["x".toList, "y".toList]), (2, [1], ["z".toList])] :=
+  ⟨by decide +kernel, by decide +kernel, by decide +kernel⟩
+
+/-- since the repair it makes no difference whether a line is ended by its line-break token or by the end of the stream:
+    the token that ends the line gets no position.  (Before the repair a leaf pointing one past the last word read "0" at
+    the end of the text and "\n" inside a longer text.) -/
 example :
     dview (readBrackets { disco := true } "(S 2)\tx\n".toList) = some [(1, [2], ["0".toList])] ∧
     dview (readBrackets { disco := true } ("(S 2)\tx".toList ++ '\n' :: "(T 1)\tz\n".toList)) =
-      some [(1, [2], ["\n".toList]), (2, [1], ["z".toList])] := ⟨by decide +kernel, by decide +kernel⟩
+      some [(1, [2], ["0".toList]), (2, [1], ["z".toList])] := ⟨by decide +kernel, by decide +kernel⟩
 
-/-- `NoTrailWs` cannot be dropped: with a blank before the newline the lexer delivers the token " \n", which does not
-    end the sentence, and the next line is swallowed. -/
+/-- the hypothesis about `lineToks a0` is weaker than the one about the text `a0 ++ "\n"`: a tree without a sentence
+    part is an error at the end of the text ("no sentence after tree": the lexer does not deliver the final line break)
+    and is read with an empty sentence inside a longer text -/
+example :
+    dview (readBrackets { disco := true } "(S 1)\n".toList) = none ∧
+    dview (brLoop { disco := true } ((lineToks "(S 1)".toList).length + 1) {} (lineToks "(S 1)".toList)) =
+      some [(1, [1], ["0".toList])] ∧
+    dview (readBrackets { disco := true } ("(S 1)".toList ++ '\n' :: "(T 1)\tz\n".toList)) =
+      some [(1, [1], ["0".toList]), (2, [1], ["z".toList])] := ⟨by decide +kernel, by decide +kernel, by decide +kernel⟩
+
+/-- `NoTrailWs` is no longer needed (D21 repaired): with a blank before the newline the lexer delivers the token " \n",
+    which now ends the sentence; the next line is read as a sentence of its own — three trees.  (Before the repair this
+    text gave two trees: `(T 1)<TAB>z` was swallowed into the sentence of the first line.) -/
 example :
     dview (readBrackets { disco := true } ("(S 1)\tx ".toList ++ '\n' :: "(T 1)\tz\n(U 1)\tw\n".toList)) =
-      some [(1, [1], ["x".toList]), (2, [1], ["w".toList])] ∧
+      some [(1, [1], ["x".toList]), (2, [1], ["z".toList]), (3, [1], ["w".toList])] ∧
     dview (readBrackets { disco := true, firstId := some 2 } "(T 1)\tz\n(U 1)\tw\n".toList) =
       some [(2, [1], ["z".toList]), (3, [1], ["w".toList])] := ⟨by decide +kernel, by decide +kernel⟩
+
+/-- formerly bad inputs are read correctly: a TAB-separated sentence part with a trailing blank, a blank line between two
+    sentences, two blanks and a TAB between two words -/
+example :
+    dview (readBrackets { disco := true } "(S 1)\tx \n(T 1)\tz\n(U 1)\tw\n".toList) =
+      some [(1, [1], ["x".toList]), (2, [1], ["z".toList]), (3, [1], ["w".toList])] ∧
+    dview (readBrackets { disco := true } "(S 1)\tx\n\n(T 1)\tz\n \n\t\n(U 1)\tw\n".toList) =
+      some [(1, [1], ["x".toList]), (2, [1], ["z".toList]), (3, [1], ["w".toList])] ∧
+    dview (readBrackets { disco := true } "(S (A 1) (B 2) (C 3))\tx  y\tz\n".toList) =
+      some [(1, [1, 2, 3], ["x".toList, "y".toList, "z".toList])] := ⟨by decide +kernel, by decide +kernel, by decide +kernel⟩
 
 
 end Disco
